@@ -92,6 +92,12 @@ pub struct E1Cfg {
     /// deadlines fired (the "transmit task services every sendable frame before the next
     /// deadline" assumption turned into a scheduling constraint; used to observe `Forever`).
     pub clock_waits_for_tx: bool,
+    /// The transmit task does not run at all while requests are outstanding (a stalled TX task):
+    /// nothing is ever sent; only the "resolves, never hangs, slot not lost" clauses apply.
+    pub tx_dead: bool,
+    /// Env choice at delivery: the response arrives with more EtherCAT payload than a slot can
+    /// hold (index and header intact), so the receive side rejects it after it claimed the slot.
+    pub oversize: bool,
 }
 
 impl E1Cfg {
@@ -114,6 +120,8 @@ impl E1Cfg {
             horizon: 4000,
             max_clock_firings: 10,
             clock_waits_for_tx: false,
+            tx_dead: false,
+            oversize: false,
         }
     }
 }
@@ -930,6 +938,16 @@ fn rx_body(mut rx: PduRx<'static>, cfg: E1Cfg) -> Y {
                 })
             });
         }
+        let mut frame = frame;
+        if cfg.oversize && !frame.dup && with_ctx(|c| c.choose(Kind::Env, 2)) == 1 {
+            // same frame, but the EtherCAT header announces (and the frame carries) 4 bytes more
+            // than the PDU area of a slot
+            let new_len = DATA - 16 + 4;
+            frame.bytes.resize(14 + 2 + new_len, 0);
+            let hdr = 0x1000u16 | (new_len as u16 & 0x07ff);
+            frame.bytes[14..16].copy_from_slice(&hdr.to_le_bytes());
+            with_ctx(|c| c.log(|| format!("    wire: response for tag {} arrives oversize ({} payload bytes)", frame.tag, new_len)));
+        }
         let res = rx.receive_frame(&frame.bytes);
         if tearing_down() {
             return Y::Done;
@@ -1263,6 +1281,9 @@ pub fn run_e1(cfg: &E1Cfg, ctx: &mut Ctx) -> RunResult {
                         && clock_firings < cfg.max_clock_firings
                         && tx_serviced
                         && clock::next_deadline().is_some();
+                }
+                if cfg.tx_dead && i == tx_id && !shutdown {
+                    return false;
                 }
                 match t.blocked {
                     None => true,
